@@ -44,7 +44,7 @@ static void sa_dealloc(const GPAllocator* a, void* p) { (void)a; free(p); }
 static const GPAllocator str_alloc = { sa_alloc, sa_dealloc };
 #define SA (&str_alloc)
 
-static const char* loc(const char* s) { return strcmp(s, "-") ? s : ""; }
+static const char* loc(const char* s) { return !strcmp(s, "null") ? NULL : strcmp(s, "-") ? s : ""; }   /* "null": documented as the global locale */
 static int flags_of(const char* s)
 {
     int f = 0;
